@@ -33,6 +33,7 @@ func init() {
 type r2pAtoms map[string]bool
 
 type r2pElem struct {
+	bare    []string // delimited children of the input that the alternative holds outside any delimiters
 	missing []string
 	pos     string
 	what    string
@@ -50,7 +51,9 @@ func r2pUnion(as ...r2pAtoms) r2pAtoms {
 
 type r2pRebuild struct {
 	*r2pEnv
-	mv       *r3pMoves // R-context-move collector (rules_r3print_move.go), may be nil
+	mv       *r3pMoves       // R-context-move collector (rules_r3print_move.go), may be nil
+	dl       *r4pDelims      // R-rebuild-delimiters collector (rules_r4print_delims.go), may be nil
+	unit     *r2pRebuildUnit // the unit under analysis
 	variants map[*types.Func]bool
 	resType  types.Type // result type of the function under analysis (variant producers: the list type)
 	isVar    bool
@@ -275,7 +278,11 @@ func (rb *r2pRebuild) elemOf(st *r2pState, x ast.Expr) r2pElem {
 	if len(what) > 60 {
 		what = what[:57] + "..."
 	}
-	return r2pElem{missing: rb.missing(st, rb.root, rb.rootType, a, 0), pos: fmt.Sprintf("line %d", rb.line(x.Pos())), what: what}
+	el := r2pElem{missing: rb.missing(st, rb.root, rb.rootType, a, 0), pos: fmt.Sprintf("line %d", rb.line(x.Pos())), what: what}
+	if rb.dl != nil {
+		el.bare = rb.dl.bareChildren(rb, st, x)
+	}
+	return el
 }
 
 // elemsOf: the alternatives held by a list-valued expression of the producer's result type.
@@ -342,6 +349,13 @@ func (rb *r2pRebuild) assignIdent(st *r2pState, id *ast.Ident, rhs ast.Expr, a r
 		}
 	}
 	st.atoms[o] = a
+	if rb.dl != nil {
+		if rhs != nil {
+			st.bare[o] = rb.dl.bareAtoms(rb, st, rhs)
+		} else {
+			delete(st.bare, o)
+		}
+	}
 }
 
 func (rb *r2pRebuild) onStmt(st *r2pState, s ast.Stmt) (*r2pState, bool) {
@@ -431,13 +445,37 @@ func (rb *r2pRebuild) onStmt(st *r2pState, s ast.Stmt) (*r2pState, bool) {
 				}
 				st.atoms[o] = r2pUnion(na, vals[i].a)
 				st.alias[o] = ""
+				if rb.dl != nil {
+					// the copy still holds the other children in the positions of its own struct
+					nb := r2pAtoms{}
+					s0, kids := rb.childFields(o.Type())
+					for _, f := range kids {
+						if f.Name == fields[0] {
+							continue
+						}
+						if ok, _ := rb.dl.delimited(s0, f.Name); !ok {
+							nb[r2pNorm(ap)+"."+f.Name] = true
+						}
+					}
+					st.bare[o] = r2pUnion(nb, rb.dl.storeBare(rb, st, o, fields, x.Rhs[i]))
+				}
 				continue
 			}
 			if aliased && ap != "" {
 				st.atoms[o] = r2pUnion(r2pAtoms{r2pNorm(ap): true}, vals[i].a)
+				if rb.dl != nil {
+					st.bare[o] = r2pUnion(r2pAtoms{r2pNorm(ap): true}, rb.dl.storeBare(rb, st, o, fields, x.Rhs[i]))
+				}
 				continue
 			}
 			st.atoms[o] = r2pUnion(st.atoms[o], vals[i].a)
+			if rb.dl != nil {
+				prev, ok := st.bare[o]
+				if !ok {
+					prev = st.atoms[o]
+				}
+				st.bare[o] = r2pUnion(prev, rb.dl.storeBare(rb, st, o, fields, x.Rhs[i]))
+			}
 		}
 	case *ast.DeclStmt:
 		if gd, ok := x.Decl.(*ast.GenDecl); ok {
@@ -575,11 +613,11 @@ type r2pRebuildUnit struct {
 }
 
 func ruleR2pRebuild(c *Ctx) []Obligation {
-	return r2pRebuildAll(c, nil)
+	return r2pRebuildAll(c, nil, nil)
 }
 
 // r2pRebuildAll runs the rebuild analysis over optimizer and fuzzer; mv (optional) collects the context moves.
-func r2pRebuildAll(c *Ctx, mv *r3pMoves) []Obligation {
+func r2pRebuildAll(c *Ctx, mv *r3pMoves, dl *r4pDelims) []Obligation {
 	m := travGetModel(c)
 	r := &travRun{c: c, m: m, tc: newTravCollector(m), hasUnit: map[string]bool{}}
 	var obs []Obligation
@@ -600,7 +638,7 @@ func r2pRebuildAll(c *Ctx, mv *r3pMoves) []Obligation {
 				continue
 			}
 			env := r2pNewEnv(c, m, p, fd)
-			rb := &r2pRebuild{r2pEnv: env, mv: mv, variants: variants, resType: sg.Results().At(0).Type(), isVar: variants[fn]}
+			rb := &r2pRebuild{r2pEnv: env, mv: mv, dl: dl, variants: variants, resType: sg.Results().At(0).Type(), isVar: variants[fn]}
 			if !rb.nodeCarrying(rb.resType) {
 				continue
 			}
@@ -691,7 +729,10 @@ func r2pRebuildAll(c *Ctx, mv *r3pMoves) []Obligation {
 func (rb *r2pRebuild) run(u *r2pRebuildUnit) Obligation {
 	c := rb.c
 	info := rb.info
-	rb.root, rb.rootType = u.root, u.rootType
+	rb.root, rb.rootType, rb.unit = u.root, u.rootType, u
+	if rb.dl != nil {
+		rb.dl.begin(rb, u)
+	}
 	body, loops := r2pWrap(rb.fd.Body)
 	rb.loops = loops
 	filter := &r2pClauseFilter{loops: loops, host: u.host, clause: u.clause, skip: u.skip, perSwitch: u.perSwitch}
@@ -754,6 +795,9 @@ func (rb *r2pRebuild) run(u *r2pRebuildUnit) Obligation {
 					a, _ := rb.eval(st, r.X)
 					st.atoms[o] = a
 					delete(st.elems, o)
+					if rb.dl != nil {
+						st.bare[o] = rb.dl.bareAtoms(rb, st, r.X)
+					}
 				}
 			}
 			return st, true
@@ -767,6 +811,9 @@ func (rb *r2pRebuild) run(u *r2pRebuildUnit) Obligation {
 			res := o.ret.Results[0]
 			if rb.isVar {
 				for _, el := range rb.elemsOf(st, res) {
+					if rb.dl != nil && len(el.bare) > 0 {
+						rb.dl.note(u, el.bare, fmt.Sprintf("the alternative `%s` produced at %s", el.what, el.pos), st.traceStr())
+					}
 					if len(el.missing) == 0 {
 						continue
 					}
@@ -778,6 +825,11 @@ func (rb *r2pRebuild) run(u *r2pRebuildUnit) Obligation {
 					viol = append(viol, witness{fmt.Sprintf("the alternative `%s` produced at %s does not contain %s of the input", el.what, el.pos, strings.Join(el.missing, ", ")), st.traceStr()})
 				}
 				return
+			}
+			if rb.dl != nil {
+				if b := rb.dl.bareChildren(rb, st, res); len(b) > 0 {
+					rb.dl.note(u, b, fmt.Sprintf("the value returned at line %d (`%s`)", rb.line(o.at), r2pShort(exprStr(res))), st.traceStr())
+				}
 			}
 			a, _ := rb.eval(st, res)
 			if ms := rb.missing(st, rb.root, rb.rootType, a, 0); len(ms) > 0 {
